@@ -289,6 +289,16 @@ DoOp(i) ==
                             THEN cache \cup {[key |-> k, r |-> fresh]} ELSE cache
     /\ UNCHANGED <<types, units>>
 
+\* the guards under which an item can be attempted at all (its operands exist)
+CanTry(i) ==
+    CASE i.act = "base"    -> ~HasType(i.name)
+      [] i.act = "derived" -> DefTypesKnown(i.def) /\ ~HasType(i.name)
+      [] i.act = "scaled"  -> HasType(i.typ) /\ HasUnit(i.of)
+      [] i.act = "plain"   -> HasType(i.typ)
+      [] i.act = "term"    -> HasType(i.typ) /\ ItemsKnown(i.items)
+      [] i.act = "derive"  -> HasType(i.typ) /\ \A k \in DOMAIN i.items : HasUnit(i.items[k])
+      [] i.act = "pow"     -> HasUnit(i.sym)
+      [] OTHER             -> HasUnit(i.sym) /\ HasUnit(i.of)
 Step(i) == DeclBase(i) \/ DeclDerived(i) \/ NewScaled(i) \/ NewPlain(i) \/ NewTerm(i)
            \/ NewDerived(i) \/ DoOp(i)
 Next == \E i \in MenuItems : Step(i)
